@@ -230,6 +230,24 @@ def run_probes(spec, ctx):
             ctx.violation("C16:probe-error:" + name, "%s -> %s %s" % (src, o.kind, core.safe_str(o.exc, 100)), {"src": src})
         elif str(o.value) != "TRUE":
             ctx.violation("C16:result-aliases-input:" + name, "%s: mutating the result changed an input" % src, {"src": src})
+        # the same with every kind of in-place edit the result takes, and with two more values built by the same
+        # expression: the one built before stays as it was, the one built afterwards is what the first one was
+        for m2 in (mut, "r[0] = 'Z'", "append(r, 9)", "delete_at(r, 0)", "insert_at(r, 0, 'Y')", "remove(r, 1)", "r[0] = 'Z'; append(r, 8)"):
+            again = "string(%s) == want" % expr if name not in ("sample", "choices", "compound-add") else "TRUE"
+            src = ("%s; def before = %s; def r = %s; def r2 = %s; def want = string(r2); def done = do %s; 'edited' catch all 'not applicable' end; "
+                   "[%s == before, string(r2) == want, %s, done]" % (setup, ins, expr, expr, m2, ins, again))
+            o = ev(src)
+            ctx.count("probe_evaluations")
+            ctx.case(("probe", name, "result-edit", m2), nontrivial=True)
+            if o.kind != "value":
+                ctx.violation("C16:probe-error:" + name, "%s -> %s %s" % (src, o.kind, core.safe_str(o.exc, 100)), {"src": src})
+                continue
+            got = core.safe_str(o.value, 200)
+            if got.endswith("'edited']"):
+                ctx.count("probe_result_edits")
+            if not got.startswith("[TRUE, TRUE, TRUE, "):
+                which = ["result-aliases-input", "results-share-storage", "result-edit-shows-in-next-result"][[x.strip() for x in got[1:].split(",")].index("FALSE")] if "FALSE" in got else "probe-error"
+                ctx.violation("C16:%s:%s" % (which, name), "%s -> %s: editing one result changed an input, another result, or the next result" % (src, got), {"src": src})
         # input mutated -> result unchanged
         for v in inputs:
             imut = {"append(r, 9)": "append(%s, 9)", "r[0] = 9": "append(%s, 9)", "delete_at(r, 0)": "append(%s, 9)",
